@@ -29,3 +29,16 @@ func verifSleep(d time.Duration) time.Duration {
 	}
 	return d
 }
+
+// verifAdjustAccess: with an injected clock the access times booked for the size limiter follow it (the code reads
+// time.Now() directly); without one nothing changes.
+func verifAdjustAccess(s *storage, ai *accessedItem, si *storableAccessedItem) {
+	if c, ok := verifhook.Clock(); ok {
+		if ai != nil {
+			ai.accessTime = accessTime(c - s.startedAt)
+		}
+		if si != nil {
+			si.accessTime = c
+		}
+	}
+}
